@@ -303,7 +303,10 @@ func prun(c PCase, cc *kit.Case) {
 		if why, generic := oa.judge(p.G, preds, po, "typed", "bool"); why != "" {
 			cs := Case{Tree: c.Tree, Groups: c.Groups}
 			for _, q := range c.Points {
-				b, _ := pointScope(refs, q)
+				b, coll := pointScope(refs, q)
+				if coll != "" {
+					continue // never evaluated
+				}
 				cs.Steps = append(cs.Steps, Step{G: q.G, Entry: "type+typed", X: "bool", FX: "bool", Bind: b})
 			}
 			sig := classify(&cs, nil)
